@@ -38,6 +38,7 @@ static struct rec_ctl *rc;
 static int outfd = -1;
 static const char *ini_path;
 static char helper_path[512];
+static int pty_m = -1, pty_s = -1;
 
 /* ---------------------------------------------------------------- output */
 static char obuf[1 << 22];
@@ -277,8 +278,13 @@ static size_t run_line(size_t pc, int in_child, int *stop) {
         fcntl(m, F_SETFL, O_NONBLOCK); add_sink("devtty", S_PTY, NULL, m);
         if (ntok > 1 && !strcmp(tok[1], "stdin")) { dup2(s, 0); }
         char *tn = ttyname(s); opf("{\"ev\":\"pty\",\"name\":\"%s\"}\n", tn ? tn : "?");
+    } else if (!strcmp(c, "ptypair")) {                              /* a pty that is nobody's controlling terminal: cheap tty for stdin */
+        struct termios t; if (openpty(&pty_m, &pty_s, NULL, NULL, NULL) < 0) opf("{\"ev\":\"error\",\"what\":\"openpty: %s\"}\n", strerror(errno));
+        tcgetattr(pty_s, &t); cfmakeraw(&t); tcsetattr(pty_s, TCSANOW, &t);
+        char *tn = ttyname(pty_s); opf("{\"ev\":\"pty\",\"name\":\"%s\"}\n", tn ? tn : "?");
     } else if (!strcmp(c, "stdin")) {
-        if (!strcmp(tok[1], "closed")) close(0);
+        if (!strcmp(tok[1], "pty")) { int f = open(ttyname(pty_s), O_RDWR | O_NOCTTY); dup2(f >= 0 ? f : pty_s, 0); if (f >= 0) close(f); }
+        else if (!strcmp(tok[1], "closed")) close(0);
         else if (!strcmp(tok[1], "null")) { int f = open("/dev/null", O_RDONLY); dup2(f, 0); close(f); }
         else if (!strcmp(tok[1], "pipe")) { int p[2]; if (pipe(p)) {} dup2(p[0], 0); close(p[0]); }
     } else if (!strcmp(c, "envclear")) { clearenv();
